@@ -437,8 +437,17 @@ def run_tasks(world, tasks, max_steps=200000, stall_rounds=3, order=None):
                 continue
             before = world.activity
             SEAMS.current = t.who
+            meter = getattr(world, "meter", None)
+            if meter is not None and meter.who != t.who:
+                meter = None
             try:
-                t.last = next(t.gen)
+                if meter is not None:
+                    meter.start()
+                try:
+                    t.last = next(t.gen)
+                finally:
+                    if meter is not None:
+                        meter.stop()
                 t.steps += 1
             except StopIteration as si:
                 t.outcome = Outcome("ok", value=si.value if si.value
@@ -673,3 +682,49 @@ class Pair(object):
             if not moved:
                 break
         return got, excs
+
+
+class Meter(object):
+    """Counts Python function calls (and optionally peak allocation) while
+    one endpoint is being stepped."""
+
+    def __init__(self, who, memory=False):
+        self.who = who
+        self.calls = 0
+        self.memory = memory
+        self.peak = 0
+        self._base = None
+
+    def _prof(self, frame, event, arg):
+        if event == "call":
+            self.calls += 1
+
+    def start(self):
+        if self.memory:
+            import tracemalloc
+            if not tracemalloc.is_tracing():
+                tracemalloc.start()
+            if self._base is None:
+                self._base = tracemalloc.get_traced_memory()[0]
+            tracemalloc.reset_peak()
+        sys.setprofile(self._prof)
+
+    def stop(self):
+        sys.setprofile(None)
+        if self.memory:
+            import tracemalloc
+            cur, peak = tracemalloc.get_traced_memory()
+            self.peak = max(self.peak, peak - self._base)
+
+
+def raising_site(exc):
+    """(function, line) of the innermost tlslite frame of an exception."""
+    tb = exc.__traceback__
+    site = None
+    while tb is not None:
+        fn = tb.tb_frame.f_code.co_filename
+        if "/tlslite/" in fn:
+            site = (fn.split("/tlslite/")[-1],
+                    tb.tb_frame.f_code.co_name)
+        tb = tb.tb_next
+    return site
